@@ -71,6 +71,9 @@ def _expand(func, args, kwargs):
     a = args[0]
     m = meta_call(func, args, kwargs)
     p = P(a)
+    if int(np.prod(tuple(m.shape))) == p.size:
+        # nothing is actually repeated (only size-1 dimensions added): an ordinary writable view of the same storage, as in torch
+        return like(a, p.reshape(tuple(m.shape)))
     return like(a, np.broadcast_to(p, tuple(m.shape)))
 
 
